@@ -56,8 +56,8 @@ def gen_noise(tape: Tape, backend: str, n_atoms: int) -> tuple[dict, list[str]]:
     k = tape.int(1, 2, "n_noise")
     for i in tape.permutation(len(pool), "noise_pick")[:k]:
         kinds.append(pool[i])
-    if "spam_prep" in kinds and n_atoms < 3:
-        kinds = [x if x != "spam_prep" else "spam_meas" for x in kinds]
+    if "spam_prep" in kinds and n_atoms < 3 and backend != "sv":
+        kinds = [x if x != "spam_prep" else "spam_meas" for x in kinds]  # emu-mps needs two well-prepared atoms
     for kd in kinds:
         if kd == "spam_meas":
             nd.update(p_false_pos=round(tape.float(0.01, 0.3, "pfp"), 2), p_false_neg=round(tape.float(0.01, 0.3, "pfn"), 2))
@@ -67,7 +67,7 @@ def gen_noise(tape: Tape, backend: str, n_atoms: int) -> tuple[dict, list[str]]:
             elif side == "fn_only":
                 nd["p_false_pos"] = 0.0
         elif kd == "spam_prep":
-            nd.update(state_prep_error=round(tape.float(0.05, 0.35, "prep"), 2))
+            nd.update(state_prep_error=round(tape.float(0.05, 0.35 if backend != "sv" else 0.6, "prep"), 2))
         elif kd == "amplitude":
             nd.update(amp_sigma=round(tape.float(0.01, 0.2, "amp_sigma"), 3))
         elif kd == "detuning":
